@@ -18,7 +18,7 @@ import (
 
 // PolicyCase: may a SignatureVerifier be constructed for this key with / without the opt-in?
 type PolicyCase struct {
-	Shape string // "pool" | "rsa-bits" | "p256-generic" | "nil" | "rsa-value" | "ecdsa-value" | "ecdh-p256" | "x25519" | "bytes" | "string"
+	Shape string // "pool" | "rsa-bits" | "ec256-other" | "p256-generic" | "nil" | "rsa-value" | "ecdsa-value" | "ecdh-p256" | "x25519" | "bytes" | "string"
 	Key   string // pool name (pool, *-value)
 	Bits  int    // rsa-bits: exact modulus bit length
 	Low   []byte // rsa-bits: low-order bytes of the modulus
@@ -29,7 +29,7 @@ var rsaBitChoices = []int{512, 1023, 1024, 1025, 2040, 2046, 2047, 2048, 2049, 2
 
 func genPolicy(t *rapid.T) PolicyCase {
 	c := PolicyCase{OptIn: rapid.Bool().Draw(t, "optin")}
-	c.Shape = pickStr(t, "shape", []string{"pool", "pool", "pool", "pool", "rsa-bits", "rsa-bits", "rsa-bits", "p256-generic", "nil", "rsa-value", "ecdsa-value", "ecdh-p256", "x25519", "bytes", "string"})
+	c.Shape = pickStr(t, "shape", []string{"pool", "pool", "pool", "pool", "rsa-bits", "rsa-bits", "rsa-bits", "ec256-other", "p256-generic", "nil", "rsa-value", "ecdsa-value", "ecdh-p256", "x25519", "bytes", "string"})
 	switch c.Shape {
 	case "pool":
 		c.Key = genKey(t, "key")
@@ -47,7 +47,7 @@ func genPolicy(t *rapid.T) PolicyCase {
 func policyKey(c PolicyCase) (pub any, name string) {
 	switch c.Shape {
 	case "pool":
-		return keys.Get(c.Key).Pub, c.Key
+		return getKey(c.Key).Pub, c.Key
 	case "rsa-bits":
 		n := new(big.Int).Lsh(big.NewInt(1), uint(c.Bits-1))
 		n.Or(n, new(big.Int).SetBytes(c.Low))
@@ -58,12 +58,14 @@ func policyKey(c PolicyCase) (pub any, name string) {
 		k := keys.Pick("p256", len(c.Key)).Pub.(*ecdsa.PublicKey)
 		p := *elliptic.P256().Params()
 		return &ecdsa.PublicKey{Curve: &p, X: k.X, Y: k.Y}, "P-256 as generic CurveParams"
+	case "ec256-other":
+		return getKey("bp256t1-0").Pub, "ECDSA key on brainpoolP256t1 (256 bits, not P-256)"
 	case "nil":
 		return nil, "nil"
 	case "rsa-value":
-		return *keys.Get(c.Key).Pub.(*rsa.PublicKey), "rsa.PublicKey value"
+		return *getKey(c.Key).Pub.(*rsa.PublicKey), "rsa.PublicKey value"
 	case "ecdsa-value":
-		return *keys.Get(c.Key).Pub.(*ecdsa.PublicKey), "ecdsa.PublicKey value"
+		return *getKey(c.Key).Pub.(*ecdsa.PublicKey), "ecdsa.PublicKey value"
 	case "ecdh-p256":
 		k, err := keys.Pick("p256", 0).Pub.(*ecdsa.PublicKey).ECDH()
 		if err != nil {
@@ -89,7 +91,7 @@ func checkPolicy(t *testing.T, c PolicyCase) (v harness.Verdict) {
 	v.NonTrivial = true
 	v.Class("shape:" + c.Shape)
 	if c.Shape == "pool" {
-		v.Class("key:" + keys.Get(c.Key).Kind)
+		v.Class("key:" + getKey(c.Key).Kind)
 	}
 	if c.Shape == "rsa-bits" {
 		v.Class(fmt.Sprintf("rsa-bits:%d", c.Bits))
